@@ -5,7 +5,7 @@ cd /verif
 LIST="$@"; [ -z "$LIST" ] && LIST=$(ls seeded | grep -v obsolete)
 SAVE=$(mktemp -d /tmp/evsave.XXXX); cp -a /verif/evidence/. $SAVE/
 for m in $LIST; do
-  P=seeded/$m/patch.diff
+  P=/verif/seeded/$m/patch.diff
   CHECKS=$(python3 -c "import json;print(' '.join(json.load(open('seeded/$m/meta.json'))['detection'].keys()))")
   if ! git -C /repo apply --check $P 2>/dev/null; then echo "$m PATCH-DOES-NOT-APPLY"; continue; fi
   git -C /repo apply $P
